@@ -514,7 +514,29 @@ def c20_shifts(w, k, op, before, sim, reports):
             out.append(('C20', 'schedule_events_differ_from_flips', {'vehicle': v.id, 'events': evs.get(v.id, []), 'expected': expected}))
     return out
 
-STATELESS = [c02_counts, c03_no_divert, c04_step, c06_motion, c07_location, c08_indexes, c09_atomic, c10_membership,
+def update_pass(w, k, op, before, sim, reports):
+    """the structure every history theorem rests on (C18_everyone_processed, C18_order_is_others_then_queue): one pass of vehicle
+    updates handles every vehicle of the state exactly once, the non-queueing ones in id order first, then the queueing ones by
+    (enqueue time, id).  A vehicle updated twice or not at all breaks the tie of the step model to the code for every property
+    proved through it; a mere difference of order concerns C18."""
+    out = []
+    if op[0] != 'update' or getattr(w, 'last_update_order', None) is None:
+        return out
+    got = list(w.last_update_order)
+    w.last_update_order = None
+    others = sorted(v.id for v in before.vehicles.values() if not isinstance(v.vehicle_state, ChargeQueueing))
+    queued = [v.id for v in sorted((v for v in before.vehicles.values() if isinstance(v.vehicle_state, ChargeQueueing)),
+                                   key=lambda v: (int(v.vehicle_state.enqueue_time), v.id))]
+    want = others + queued
+    if sorted(got) != sorted(want):
+        d = {'updated': got, 'vehicles_of_the_state': want, 'twice_or_more': sorted(set(x for x in got if got.count(x) > 1)), 'never': sorted(set(want) - set(got))}
+        for p in ('C02', 'C03', 'C04', 'C05', 'C06', 'C07', 'C10', 'C17', 'C18', 'C19'):
+            out.append((p, 'tie:vehicle_not_updated_exactly_once_in_a_pass', d))
+    elif got != want:
+        out.append(('C18', 'tie:update_order_differs_from_model', {'updated': got, 'expected': want}))
+    return out
+
+STATELESS = [update_pass, c02_counts, c03_no_divert, c04_step, c06_motion, c07_location, c08_indexes, c09_atomic, c10_membership,
              c17_dispatch, c18_fifo, c20_shifts]
 
 def all_observers(w):
